@@ -107,23 +107,23 @@ def amplitude_to_density(
 
     EPS = 1e-5
     amplitude = numpy.abs(data)
-    if numpy.all(amplitude == 0):
-        return amplitude
-    else:
-        if not data_mean:
-            data_mean = numpy.mean(amplitude[numpy.isfinite(amplitude)])
-        # remap parameters
-        C_L = 0.8*data_mean
-        C_H = mmult*C_L  # decreasing mmult will result in higher contrast (and quicker saturation)
-        slope = (255 - dmin)/numpy.log10(C_H/C_L)
-        constant = dmin - (slope*numpy.log10(C_L))
-        # NB: C_H/C_L trivially collapses to mmult, but this is maintained for
-        # clarity in historical reference
-        # Originally, C_L and C_H were static values drawn from a determined set
-        # of remap look-up tables. The C_L/C_H values were presumably based roughly
-        # on mean amplitude and desired remap brightness/contrast. The dmin value
-        # was fixed as 30.
-        return slope*numpy.log10(numpy.maximum(amplitude, EPS)) + constant
+    if not data_mean:
+        if numpy.all(amplitude == 0):
+            # no mean can be formed from this sample alone
+            return amplitude
+        data_mean = numpy.mean(amplitude[numpy.isfinite(amplitude)])
+    # remap parameters
+    C_L = 0.8*data_mean
+    C_H = mmult*C_L  # decreasing mmult will result in higher contrast (and quicker saturation)
+    slope = (255 - dmin)/numpy.log10(C_H/C_L)
+    constant = dmin - (slope*numpy.log10(C_L))
+    # NB: C_H/C_L trivially collapses to mmult, but this is maintained for
+    # clarity in historical reference
+    # Originally, C_L and C_H were static values drawn from a determined set
+    # of remap look-up tables. The C_L/C_H values were presumably based roughly
+    # on mean amplitude and desired remap brightness/contrast. The dmin value
+    # was fixed as 30.
+    return slope*numpy.log10(numpy.maximum(amplitude, EPS)) + constant
 
 
 def _linear_map(
